@@ -66,6 +66,11 @@ def synthesize(src_text, spec):
         if len(hits) != 1:
             raise SiteError(f"expected exactly one assignment to {loc[1]} in {spec['func']}, found {len(hits)}")
         return f"def {fname}({args}):\n    return {ast.unparse(hits[0].value)}\n", fname
+    if kind == "while_test":
+        loops = [n for n in fn.body if isinstance(n, ast.While)]
+        if len(loops) <= loc[1]:
+            raise SiteError(f"{spec['func']} has no top-level while #{loc[1]}")
+        return f"def {fname}({args}):\n    return {ast.unparse(loops[loc[1]].test)}\n", fname
     if kind == "gen_elt":
         for n in ast.walk(fn):
             if isinstance(n, (ast.GeneratorExp, ast.ListComp)) and ast.unparse(n) == loc[1]:
@@ -89,7 +94,7 @@ def generate(repo):
                 text = f.read()
             synth, fname = synthesize(text, spec)
             if synth is None:
-                h = hashlib.sha256(spec["locator"][1].encode()).hexdigest()[:16]
+                h = hashlib.sha256(str(spec["locator"][1]).encode()).hexdigest()[:16]
                 out.append(f"(* site fact {spec['name']}: `{spec['locator'][1]}` present in "
                            f"{spec['file']}:{spec['func']} *)\n"
                            f"Definition {spec['name']} : bool := true.\n")
